@@ -413,6 +413,14 @@ def Op.scatSlabNoOffset (B nslab np ny : Nat) (I J : Nat → Nat) (w : V α) : O
   eval := slabScatter B nslab np ny I w
   adj := slabGatherNoOffset B J w
 
+/-- index-map operator `(A x) i = x (φ i)` (0 where `φ i` is out of range): `Slice`, `Crop`, `Transpose`, `Reshape`,
+    `Pad` with zeros; the adjoint (derived by `jax.linear_transpose`) is the scatter-add along `φ` -/
+def Op.imap [One α] (n m : Nat) (φ : Nat → Nat) : Op α where
+  nin := n
+  nout := m
+  eval := gatherFill0 n φ (fun _ => 1)
+  adj := scatterAddDrop m n φ (fun _ => 1)
+
 /-- 2-D detector of shape `(d0,d1)`: flat index, `d0*d1` (off the detector) when either coordinate is out of range -/
 def flat2 (d0 d1 a b : Nat) : Nat := if a < d0 ∧ b < d1 then a * d1 + b else d0 * d1
 /-- per-axis clamping of a 2-D index as `y[a, b]` does -/
